@@ -66,6 +66,50 @@ Lemma vec_probe_wf v : vec_wf v ->
 Proof.
   unfold vec_wf, vec_probe_guard, vec_wfb; intros ->. rewrite Z.eqb_refl. cbn [negb]. repeat split.
 Qed.
+(** after any history the binary requests decide conformability with the object on EITHER side; Angle too;
+    operator== always answers *)
+Lemma vec_probe_sides v : vec_wf v ->
+  (forall d, decides (vec_probe_guard v (VPBinary d)) (v_dim v = d)) /\
+  (forall d, decides (vec_probe_guard v (VPBinaryR d)) (v_dim v = d)) /\
+  (forall d, decides (vec_probe_guard v (VPAngle d)) (v_dim v = d)) /\
+  (forall d, decides (vec_probe_guard v (VPAngleR d)) (v_dim v = d)) /\
+  (forall d, decides (vec_probe_guard v (VPCrossR d)) (v_dim v = 3 /\ d = 3)) /\
+  (forall d, vec_probe_guard v (VPEq d) = Ok tt /\ vec_probe_guard v (VPEqR d) = Ok tt).
+Proof.
+  unfold vec_wf, vec_probe_guard, vec_wfb; intros ->. rewrite Z.eqb_refl. cbn [negb].
+  refine (conj _ (conj _ (conj _ (conj _ (conj _ _))))); intros d.
+  - apply vec_binary_spec.
+  - apply (decides_iff _ (d = v_dim v)); [split; congruence|apply vec_binary_spec].
+  - apply angle_spec.
+  - apply (decides_iff _ (d = v_dim v)); [split; congruence|apply angle_spec].
+  - apply (decides_iff _ (d = 3 /\ v_dim v = 3)); [tauto|apply cross_spec].
+  - split; apply vec_eq_returns.
+Qed.
+(** refinement of the history to the mathematical size: Resize / Assign / assignment set it, a copy keeps it,
+    += keeps it and has no meaning for another size *)
+Definition vec_op_dim (d : Z) (o : vec_op) : option Z :=
+  match o with
+  | VResize n | VAssign n | VSet n => Some n
+  | VCopy => Some d
+  | VAddEq n => if d =? n then Some d else None
+  end.
+Fixpoint vec_dims (d : Z) (ops : list vec_op) : option Z :=
+  match ops with [] => Some d | o :: r => match vec_op_dim d o with Some d' => vec_dims d' r | None => None end end.
+Lemma vec_history_refines ops : forall d,
+  vec_history {| v_dim := d; v_len := d |} ops = match vec_dims d ops with Some d' => Ok {| v_dim := d'; v_len := d' |} | None => Exit end.
+Proof.
+  induction ops as [|o r IH]; intros d; cbn [vec_history vec_dims]; [reflexivity|].
+  destruct o as [n|n| |n|n]; cbn [vec_step vec_op_dim vec_new v_dim v_len rbind]; try apply IH.
+  destruct (Z.eqb_spec d n) as [->|Hn]; cbn [negb]; [|reflexivity].
+  rewrite for_range_ok; [cbn [rbind]; apply IH|]. intros i Hi. idx. reflexivity.
+Qed.
+Lemma vec_session_refines d ops p :
+  vec_session d ops p = match vec_dims d ops with
+                        | Some d' => rbind (vec_probe_guard (vec_new d') p) (fun _ => Ok (vec_new d'))
+                        | None => Exit end.
+Proof.
+  unfold vec_session, vec_new. rewrite vec_history_refines. destruct (vec_dims d ops); reflexivity.
+Qed.
 Lemma vec_session_wf d ops p v : vec_session d ops p = Ok v -> vec_wf v.
 Proof.
   unfold vec_session; intros H. destruct (vec_history (vec_new d) ops) as [v1| | |] eqn:E; cbn in H; try discriminate.
